@@ -181,6 +181,7 @@ func checkC13(c *Ctx) {
 	c.checkSharedTagSlices("O8 shared-tags")
 	c.checkPublishedNotRecycled("O8 published-not-recycled")
 	c.checkBorrowedTagsReturnedOnce("O8 borrowed-returned-once")
+	c.checkConfiguredDestinations("O9 destinations")
 	c.checkClockRefresh("O5 clock-refresh")
 	c.checkNdigits("O7 bucket-identity-digits")
 	// the bucket tag value renders the open ends as in the StatsD reporter (shared table rule, C18 O2)
